@@ -112,7 +112,10 @@ def _execute(case):
                 case["primed"] = True
             if case.get("attr") is not None:
                 da.attrs["nodata"] = case["attr"]
-            r = da.hdc.rolling.sum(case["w"], nodata=case["nd"])
+            if case["tid"] % 3 == 0:          # nodata only as the array's attribute (no argument)
+                da.attrs["nodata"] = case["nd"]
+                case["ndmode"] = "attr"
+            r = da.hdc.rolling.sum(case["w"], nodata=(None if case.get("ndmode") == "attr" else case["nd"]))
             r = r.transpose(..., "time")
             case["y"] = strs(np.asarray(r).reshape(-1))
     elif op == "rollpair":
@@ -143,7 +146,10 @@ def _execute(case):
                 case["primed"] = True
             if case.get("attr") is not None:          # the argument must win over the attribute
                 da.attrs["nodata"] = case["attr"]
-            r = da.hdc.algo.mean_grp(g, nodata=case["nd"]).transpose(..., "time")
+            if case["tid"] % 3 == 0:                    # nodata only as the array's attribute (no argument)
+                da.attrs["nodata"] = case["nd"]
+                case["ndmode"] = "attr"
+            r = da.hdc.algo.mean_grp(g, nodata=(None if case.get("ndmode") == "attr" else case["nd"])).transpose(..., "time")
             case["y"] = strs(np.asarray(r).reshape(-1))
     elif op == "meanpair":
         g = np.array(case["g"], dtype="int16")
